@@ -287,10 +287,33 @@ func genRBS(r *Rng) ([]byte, []rbsMethodModel) {
 					after = append(after, al)
 				}
 			}
+			vis := r.Pick([]string{"public", "public", "public", "private"})
+			twin := kind == "class" && r.Chance(1, 5)
+			if twin {
+				vis = "public"
+			}
 			members = append(members, map[string]any{"member": "method_definition", "name": mname, "kind": mk,
-				"visibility": r.Pick([]string{"public", "public", "public", "private"}), "comment": comment, "overloads": overloads})
+				"visibility": vis, "comment": comment, "overloads": overloads})
 			members = append(members, after...)
 			models = append(models, model)
+			if twin {
+				// the same name once more as the other kind of method (def self.x next to def x),
+				// sharing its first overload: two declarations that differ only in their kind
+				tm := rbsMethodModel{Class: full, Name: mname, Singleton: !model.Singleton, Sigs: []rbsSig{model.Sigs[0]}}
+				tover := []any{overloads[0]}
+				if r.Chance(1, 2) {
+					sig := genSig(r, untyped)
+					tm.Sigs = append(tm.Sigs, sig)
+					tover = append(tover, map[string]any{"method_type": map[string]any{"type_params": []any{}, "block": nil, "type": rbsFunc(r, sig)}})
+				}
+				tk := "singleton"
+				if !tm.Singleton {
+					tk = "instance"
+				}
+				members = append(members, map[string]any{"member": "method_definition", "name": mname, "kind": tk,
+					"visibility": "public", "comment": nil, "overloads": tover})
+				models = append(models, tm)
+			}
 			names = append(names, mname)
 		}
 		if depth == 0 && r.Chance(1, 2) {
